@@ -266,8 +266,12 @@ func parseUseOut(out string) useOut {
 	return o
 }
 
+func specFails(s string) bool {
+	return strings.HasPrefix(s, "fail") || strings.HasPrefix(s, "weof") || strings.HasPrefix(s, "ueof")
+}
+
 func specFull(s string) bool {
-	return s == "nil" || s == "final" || strings.HasPrefix(s, "fail")
+	return s == "nil" || s == "final" || specFails(s)
 }
 
 func matchesSeen(seen []string, want []scanPkg) bool {
@@ -329,7 +333,7 @@ func c03Oracle(line, out string) string {
 	skipping := false
 	for i := range t.rounds {
 		s := t.specs[i%len(t.specs)]
-		if s == "nil" || strings.HasPrefix(s, "fail") {
+		if s == "nil" || specFails(s) {
 			skipping = true
 		}
 	}
@@ -367,7 +371,7 @@ func c03Oracle(line, out string) string {
 			return c03ClauseLive
 		}
 		fail := 0
-		if strings.HasPrefix(spec, "fail") {
+		if specFails(spec) {
 			fail, _ = strconv.Atoi(spec[4:])
 			if fail > len(want) {
 				fail = 0
@@ -404,8 +408,10 @@ func c03Oracle(line, out string) string {
 		read += len(expectStream(t.resp[i]))
 	}
 	if o.left != total-read {
-		if strings.Contains(t.specs[0]+strings.Join(t.specs, ","), "fail") {
-			return c03ClauseAbort
+		for _, sp := range t.specs {
+			if specFails(sp) {
+				return c03ClauseAbort
+			}
 		}
 		return c03ClauseCons
 	}
@@ -504,7 +510,7 @@ func c11Oracle(line, out string) string {
 	}
 	for i := range t.rounds {
 		spec := t.specs[i%len(t.specs)]
-		if !strings.HasPrefix(spec, "fail") {
+		if !specFails(spec) {
 			continue
 		}
 		fail, _ := strconv.Atoi(spec[4:])
@@ -587,7 +593,7 @@ func c03Gen(tier string, rng *rand.Rand, emit func(Case)) {
 	emit(Case{Line: "use 1 0 final b1:fd0000000000000000 r b1:650301000700 r", Kind: "directed"})
 	emit(Case{Line: "use 0 0 nil b1:fd0000000000000000 b1:650301000700 r r", Kind: "directed"})
 	emit(Case{Line: "use 0 0 final b1:fd0000000000000000 b1:" + hx(rEED(2000, false, "x\n").bytes) + " r r", Kind: "directed"})
-	fullSpecs := []string{"nil", "final", "final", "fail1", "fail2", "fail3", "fail5", "fail9"}
+	fullSpecs := []string{"nil", "final", "final", "fail1", "fail2", "fail3", "fail5", "fail9", "weof1", "weof2", "ueof1", "ueof3"}
 	for i := 0; i < n; i++ {
 		k := 1 + rng.Intn(4)
 		var toks []string
@@ -678,7 +684,7 @@ func c11Gen(tier string, rng *rand.Rand, emit func(Case)) {
 	if tier == "thorough" {
 		n = 4000
 	}
-	specsPool := []string{"final", "final", "nil", "fail1", "fail2", "fail3", "fail4", "fail6"}
+	specsPool := []string{"final", "final", "nil", "fail1", "fail2", "fail3", "fail4", "fail6", "weof1", "weof3", "ueof2"}
 	for i := 0; i < n; i++ {
 		k := 1 + rng.Intn(3)
 		var toks []string
